@@ -1167,6 +1167,19 @@ func (c *Ctx) FToFP(a *Term, w int) *Term {
 	if a.IsConst() {
 		return c.fconstOf(w, fval(a))
 	}
+	// float32(op(float64(x))) = op32(x) for sqrt (double rounding is innocuous: 53 >= 2*24+2)
+	// and for the roundings to integral (exact in both formats)
+	if w == 32 && (a.Op == OFSqrt || a.Op == OFRound) && a.Args[0].Op == OFToFP && a.Args[0].Args[0].Sort.W == 32 {
+		x := a.Args[0].Args[0]
+		if a.Op == OFSqrt {
+			return c.FSqrt(x)
+		}
+		return c.FRound(x, a.P1)
+	}
+	// float64(float32 value) back to float32 is the identity
+	if a.Op == OFToFP && a.Args[0].Sort.W == w && a.Sort.W > w {
+		return a.Args[0]
+	}
 	return c.mk(&Term{Op: OFToFP, Sort: FP(w), Args: []*Term{a}})
 }
 
